@@ -167,6 +167,36 @@ for text, key, where in ALIAS_DOCS:
             got = {k_[len(path):]: v_ for k_, v_ in tr[0].items() if k_[:len(path)] == path}
             if got != want: bad('the rebuilt text does not show under the new key what the mapping reports for the assigned set', doc=text, key=key, target=target, text=t, mapping=sorted(map(str, want.items())), shown=sorted(map(str, got.items())))
         except Exception as e: bad('assigning a set taken from a document crashed: %s %s' % (type(e).__name__, e), doc=text, key=key, target=target)
+# ---- a let-scoped expression that is a binding VALUE (eleventh round): its scope mapping and the text agree also after the document has been rendered
+# (rendering copies the value when trivia follows it; the copy must not become what the scope writes through)
+def let_names(t, key):
+    root = nixread.ts(t)
+    if root.has_error: return None
+    sn = nixread.set_node(root)
+    for b in nixread.bindings(sn):
+        if b.type == 'binding' and nixread.attr_names(b.child_by_field_name('attrpath')) == [key]:
+            v = b.child_by_field_name('expression')
+            while v is not None and v.type == 'parenthesized_expression': v = v.child_by_field_name('expression')
+            if v is None or v.type != 'let_expression': return []
+            return [bb.child_by_field_name('attrpath').text.decode() for c in v.children if c.type == 'binding_set' for bb in c.children if bb.type == 'binding']
+    return None
+for base in ['{\n  x = let a = 1; in { y = a; } /* note */;\n  z = 2;\n}\n', '{\n  x = let a = 1; in { y = a; }; # eol\n  z = 2;\n}\n', '{\n  x = let a = 1; b = 2; in [ a b ];\n}\n', '{\n  x = (let a = 1; in { y = a; }) /* p */;\n}\n']:
+    for render_first in (False, True):
+        for script in (['add'], ['del'], ['add', 'del'], ['add', 'add2', 'del']):
+            count('scoped-value/' + ('rendered' if render_first else 'fresh'))
+            try:
+                d = parse(base); val = d['x']
+                while type(val).__name__ == 'Parenthesis': val = val.value
+                sc = val.scope
+                if render_first: d.rebuild(); repr(d)
+                for st_ in script:
+                    if st_ == 'add': sc['w'] = 5
+                    elif st_ == 'add2': sc['u'] = 6
+                    else: del sc['a']
+                want = names_of(sc); t = d.rebuild(); shown = let_names(t, 'x')
+                if shown is None: bad('text after a scope edit of a binding value does not parse', doc=base, ops=script, text=t)
+                elif sorted(shown) != sorted(want): bad('the let of a binding value shows %r, its scope mapping reports %r' % (shown, want), doc=base, ops=script, rendered_before=render_first, text=t)
+            except Exception as e: bad('scope edit of a binding value crashed: %s %s' % (type(e).__name__, e), doc=base, ops=script)
 for it in range(N):
     text, shape = gen(); src = parse(text); ops = []
     for step in range(R.randint(1, 6)):
